@@ -286,12 +286,12 @@ Proof.
 Qed.
 
 (** open streams never exceed the peer's MAX_CONCURRENT_STREAMS through [start_stream] *)
-Lemma start_stream_bound c w chunks c' r :
-  start_stream c w chunks = (c', r) ->
+Lemma start_stream_bound c chunks c' r :
+  start_stream c chunks = (c', r) ->
   (r <> None -> Z.of_nat (length (streams c)) < max_conc c /\ length (streams c') = S (length (streams c))) /\
   (r = None -> c' = c).
 Proof.
-  unfold start_stream. destruct (max_conc c <=? Z.of_nat (length (streams c))) eqn:E.
+  unfold start_stream, start_stream_with. destruct (max_conc c <=? Z.of_nat (length (streams c))) eqn:E.
   - intros H; inversion H; subst. split; [intros X; contradiction|reflexivity].
   - apply Z.leb_gt in E. destruct (next_stream_id (last_id c) (is_client c)) as [[i n]|].
     + intros H; inversion H; subst. cbn [streams]. rewrite app_length. cbn [length].
@@ -331,4 +331,223 @@ Proof.
   { clear -Htl. induction tl as [|a tl IH]; unfold sumz; cbn [fold_right]; [lia|].
     inversion Htl; subst. fold (sumz tl). specialize (IH H2). lia. }
   unfold sumz in *. cbn [fold_right] in *. lia.
+Qed.
+
+(* ------------------------------------------------------------------ *)
+(** * Schedules: one stream and its connection, with the peer's own books *)
+
+(** What the peer knows: the credit it granted and the bytes it received, for
+    the stream and for the connection.  [k_*] are ghost fields: the code does
+    not have them; the theorem relates them to the windows the code keeps. *)
+Record books := mkbooks {
+  b_sw : Z; b_cw : Z;            (* sozu's stream / connection send windows *)
+  b_init : Z; b_mf : Z;          (* peer's initial window / max frame size *)
+  b_body : list Z;               (* body chunks still queued *)
+  k_cs : Z; k_ss : Z;            (* stream: credit granted, bytes sent *)
+  k_cc : Z; k_sc : Z;            (* connection: credit granted, bytes sent *)
+  b_dead : bool }.               (* a flow-control error ended the stream/connection *)
+
+Inductive event :=
+| EWUconn (inc : Z)              (* WINDOW_UPDATE on stream 0 *)
+| EWUstream (inc : Z)            (* WINDOW_UPDATE on this stream *)
+| ESettingsIW (v : Z)            (* SETTINGS_INITIAL_WINDOW_SIZE *)
+| EOther (k : Z)                 (* another stream's write turn consumed k connection bytes *)
+| EWrite (fuel : nat).           (* this stream's turn in write_streams *)
+
+Definition kill (b : books) : books :=
+  mkbooks (b_sw b) (b_cw b) (b_init b) (b_mf b) (b_body b) (k_cs b) (k_ss b) (k_cc b) (k_sc b) true.
+
+(** the model functions, applied to this stream and connection; -> new state and the DATA frames emitted *)
+Definition bstep (b : books) (e : event) : books * list Z :=
+  if b_dead b then (b, []) else
+  match e with
+  | EWUconn inc =>
+    if (inc <=? 0) || (I32_MAX <? inc) then (kill b, [])
+    else match checked_add (b_cw b) inc with
+         | Some w => (mkbooks (b_sw b) w (b_init b) (b_mf b) (b_body b) (k_cs b) (k_ss b) (k_cc b + inc) (k_sc b) false, [])
+         | None => (kill b, [])
+         end
+  | EWUstream inc =>
+    if (inc <=? 0) || (I32_MAX <? inc) then (kill b, [])
+    else match checked_add (b_sw b) inc with
+         | Some w => (mkbooks w (b_cw b) (b_init b) (b_mf b) (b_body b) (k_cs b + inc) (k_ss b) (k_cc b) (k_sc b) false, [])
+         | None => (kill b, [])
+         end
+  | ESettingsIW v =>
+    if (v <? 0) || (FLOW_CONTROL_MAX_WINDOW <? v) then (kill b, [])
+    else match checked_add (b_sw b) (v - b_init b) with
+         | Some w => (mkbooks w (b_cw b) v (b_mf b) (b_body b) (k_cs b + (v - b_init b)) (k_ss b) (k_cc b) (k_sc b) false, [])
+         | None => (kill b, [])
+         end
+  | EOther k =>
+    if (k <? 0) || (Z.max 0 (b_cw b) <? k) then (b, [])     (* not a legal turn of another stream: ignored *)
+    else (mkbooks (b_sw b) (saturating_sub (b_cw b) k) (b_init b) (b_mf b) (b_body b) (k_cs b) (k_ss b) (k_cc b) (k_sc b + k) false, [])
+  | EWrite fuel =>
+    let window := Z.min (b_sw b) (b_cw b) in
+    match prepare fuel false window (b_mf b) (b_body b) [] with
+    | None => (b, [])
+    | Some (frames, lft, w') =>
+      let consumed := window - w' in
+      (mkbooks (saturating_sub (b_sw b) consumed) (saturating_sub (b_cw b) consumed) (b_init b) (b_mf b) lft
+               (k_cs b) (k_ss b + sumz frames) (k_cc b) (k_sc b + sumz frames) false, frames)
+    end
+  end.
+
+Fixpoint brun (b : books) (evs : list event) : books * list (list Z) :=
+  match evs with
+  | [] => (b, [])
+  | e :: r => let '(b1, fr) := bstep b e in let '(b2, out) := brun b1 r in (b2, fr :: out)
+  end.
+
+(** the books balance: each window is exactly credit granted minus bytes sent *)
+Definition balanced (b : books) : Prop :=
+  b_sw b = k_cs b - k_ss b /\ b_cw b = k_cc b - k_sc b /\
+  I32_MIN <= b_sw b <= I32_MAX /\ I32_MIN <= b_cw b <= I32_MAX /\
+  0 <= b_mf b /\ Forall (fun c => 0 <= c) (b_body b).
+
+Ltac fin := repeat split; try assumption; try (apply Forall_nil); try lia.
+
+Lemma bstep_balanced b e b' fr :
+  balanced b -> bstep b e = (b', fr) ->
+  balanced b' /\
+  Forall (fun f => 0 <= f /\ f <= b_mf b) fr /\
+  k_ss b' = k_ss b + sumz fr /\ k_sc b' >= k_sc b + sumz fr /\
+  k_ss b' <= Z.max (k_ss b) (k_cs b) /\ k_sc b' <= Z.max (k_sc b) (k_cc b) /\
+  k_ss b <= k_ss b' /\ k_sc b <= k_sc b'.
+Proof.
+  intros (Hs & Hc & Bs & Bc & Hm & Hb) H. unfold bstep in H.
+  unfold balanced.
+  assert (Nil : sumz [] = 0) by reflexivity.
+  destruct (b_dead b) eqn:D.
+  { inversion H; subst. rewrite Nil. fin. }
+  destruct e as [inc|inc|v|k|fuel].
+  - destruct ((inc <=? 0) || (I32_MAX <? inc)) eqn:G.
+    { inversion H; subst. rewrite Nil. unfold kill; cbn. fin. }
+    apply orb_false_iff in G. destruct G as [G1 G2]. apply Z.leb_gt in G1. apply Z.ltb_ge in G2.
+    destruct (checked_add (b_cw b) inc) as [w|] eqn:A; inversion H; subst; rewrite Nil; cbn.
+    + apply checked_add_some in A. fin.
+    + fin.
+  - destruct ((inc <=? 0) || (I32_MAX <? inc)) eqn:G.
+    { inversion H; subst. rewrite Nil. unfold kill; cbn. fin. }
+    apply orb_false_iff in G. destruct G as [G1 G2]. apply Z.leb_gt in G1. apply Z.ltb_ge in G2.
+    destruct (checked_add (b_sw b) inc) as [w|] eqn:A; inversion H; subst; rewrite Nil; cbn.
+    + apply checked_add_some in A. fin.
+    + fin.
+  - destruct ((v <? 0) || (FLOW_CONTROL_MAX_WINDOW <? v)) eqn:G.
+    { inversion H; subst. rewrite Nil. unfold kill; cbn. fin. }
+    destruct (checked_add (b_sw b) (v - b_init b)) as [w|] eqn:A; inversion H; subst; rewrite Nil; cbn.
+    + apply checked_add_some in A. fin.
+    + fin.
+  - destruct ((k <? 0) || (Z.max 0 (b_cw b) <? k)) eqn:G.
+    { inversion H; subst. rewrite Nil. fin. }
+    apply orb_false_iff in G. destruct G as [G1 G2]. apply Z.ltb_ge in G1, G2.
+    inversion H; subst; rewrite Nil; cbn. unfold saturating_sub, I32_MIN, I32_MAX in *.
+    fin.
+  - destruct (prepare fuel false (Z.min (b_sw b) (b_cw b)) (b_mf b) (b_body b) []) as [[[frames lft] w']|] eqn:P.
+    + inversion H; subst; clear H.
+      apply prepare_sound in P; [|exact Hm|unfold I32_MAX in *; lia|exact Hb].
+      destruct P as (em & Hf & Ha & Hsum & Hpos & Hneg & Hmax & Htot & Hl). cbn [rev app] in Hf. subst em.
+      cbn. replace (Z.min (b_sw b) (b_cw b) - w') with (sumz fr) by lia.
+      unfold saturating_sub, I32_MIN, I32_MAX in *.
+      repeat split; try assumption; try lia.
+    + inversion H; subst. rewrite Nil. fin.
+Qed.
+
+(** Along EVERY schedule of WINDOW_UPDATE / SETTINGS / other streams' turns /
+    write passes: the books stay balanced, hence at every point the bytes sent
+    on the stream (resp. the connection) never pass the credit granted, except
+    by the amount a SETTINGS shrink legally took back (sent <= max over the
+    history of the credit): stated as "no step moves [sent] above
+    [max sent credit]" and "balanced at the end" for every list of events,
+    so for every prefix too. *)
+Lemma brun_balanced evs : forall b b' out,
+  balanced b -> brun b evs = (b', out) ->
+  balanced b' /\ k_ss b <= k_ss b' /\ k_sc b <= k_sc b'.
+Proof.
+  induction evs as [|e r IH]; intros b b' out Hb H; cbn [brun] in H.
+  - inversion H; subst. split; [exact Hb|split; lia].
+  - destruct (bstep b e) as [b1 fr] eqn:S. destruct (brun b1 r) as [b2 o2] eqn:R. inversion H; subst.
+    destruct (bstep_balanced _ _ _ _ Hb S) as (B1 & _ & _ & _ & _ & _ & M1 & M2).
+    destruct (IH _ _ _ B1 R) as (B2 & M3 & M4). split; [exact B2|split; lia].
+Qed.
+
+(** sent <= credit whenever no SETTINGS shrink has made the window negative *)
+Lemma balanced_sent_le_credit b :
+  balanced b -> (0 <= b_sw b -> k_ss b <= k_cs b) /\ (0 <= b_cw b -> k_sc b <= k_cc b).
+Proof. intros (Hs & Hc & _). split; lia. Qed.
+
+(* ------------------------------------------------------------------ *)
+(** * Complete transfer under any legal, eventually sufficient schedule *)
+
+Lemma prepare_keeps_positive fuel : forall yield window mf chunks acc frames lft w',
+  Forall (fun c => 0 < c) chunks ->
+  prepare fuel yield window mf chunks acc = Some (frames, lft, w') ->
+  Forall (fun c => 0 < c) lft.
+Proof.
+  induction fuel as [|fuel IH]; intros yield window mf chunks acc frames lft w' Hc H.
+  - destruct chunks; cbn [prepare] in H; [|discriminate]. inversion H; subst. constructor.
+  - destruct chunks as [|c rest]; cbn [prepare] in H; [inversion H; subst; constructor|].
+    inversion Hc as [|? ? Hc0 Hcr]; subst.
+    set (chunks' := if 0 <? e_rest (emit_data window mf c) then e_rest (emit_data window mf c) :: rest else rest) in *.
+    assert (Hc' : Forall (fun c => 0 < c) chunks').
+    { unfold chunks'. destruct (0 <? _) eqn:R; [constructor; [apply Z.ltb_lt in R; exact R|exact Hcr]|exact Hcr]. }
+    destruct (e_frame (emit_data window mf c)) as [f|].
+    + destruct (e_continue (emit_data window mf c) && negb yield).
+      * eapply IH; [exact Hc'|exact H].
+      * inversion H; subst. exact Hc'.
+    + inversion H; subst. exact Hc.
+Qed.
+
+Lemma sumz_pos_nil l : Forall (fun c => 0 < c) l -> sumz l <= 0 -> l = [].
+Proof.
+  destruct l as [|a l]; [reflexivity|]. intros H Hs. exfalso. inversion H as [|? ? Ha Hl]; subst.
+  assert (0 <= sumz l).
+  { clear -Hl. induction l as [|x l IH]; unfold sumz; cbn [fold_right]; [lia|]. inversion Hl; subst. fold (sumz l). specialize (IH H2). lia. }
+  unfold sumz in *. cbn [fold_right] in Hs. lia.
+Qed.
+
+(** one round of a legal, sufficient schedule: the peer's updates have made both
+    windows positive (any positive values), then the stream gets a write turn *)
+Inductive round : stream -> stream -> Prop :=
+| round_intro x c sw fuel x' cw' frames :
+    0 < sw <= I32_MAX -> 0 < cwin c <= I32_MAX -> 0 < max_frame c -> (0 < fuel)%nat ->
+    write_stream fuel c (mkstream (sid x) sw (body x)) = Some (x', cw', frames) ->
+    round x x'.
+
+Inductive rounds : nat -> stream -> stream -> Prop :=
+| rounds_O x : rounds O x x
+| rounds_S n x y z : round x y -> rounds n y z -> rounds (S n) x z.
+
+Lemma round_decreases x x' :
+  Forall (fun c => 0 < c) (body x) -> round x x' ->
+  Forall (fun c => 0 < c) (body x') /\ (body x = [] -> body x' = []) /\
+  (body x <> [] -> sumz (body x') < sumz (body x)).
+Proof.
+  intros Hp R. inversion R as [x0 c sw fuel x1 cw' frames Hsw Hcw Hmf Hfu W]; subst.
+  assert (Hpos : Forall (fun c => 0 < c) (body x')).
+  { unfold write_stream in W. cbn [swin body sid] in W.
+    destruct (prepare fuel false (Z.min sw (cwin c)) (max_frame c) (body x) []) as [[[fr lft] w']|] eqn:P; [|discriminate].
+    inversion W; subst. cbn [body]. eapply prepare_keeps_positive; eauto. }
+  split; [exact Hpos|]. split.
+  - intros Hnil. unfold write_stream in W. cbn [swin body sid] in W. rewrite Hnil in W.
+    destruct fuel; cbn [prepare] in W; inversion W; reflexivity.
+  - intros Hne. destruct (body x) as [|b rest] eqn:Hb; [contradiction|].
+    inversion Hp as [|? ? Hb0 Hr]; subst.
+    assert (Hr0 : Forall (fun k => 0 <= k) rest) by (eapply Forall_impl; [|exact Hr]; cbn; intros; lia).
+    pose proof (progress_round fuel c (mkstream (sid x) sw (b :: rest)) b rest x' cw' frames eq_refl Hb0 Hr0) as P.
+    cbn [swin body] in P. destruct (P Hsw Hcw Hmf Hfu W) as [P1 _]. exact P1.
+Qed.
+
+(** after as many rounds as there are bytes, nothing is left: the whole body was sent *)
+Lemma transfer_completes_l n : forall x x',
+  Forall (fun c => 0 < c) (body x) -> rounds n x x' -> sumz (body x) <= Z.of_nat n -> body x' = [].
+Proof.
+  induction n as [|n IH]; intros x x' Hp R Hn.
+  - inversion R; subst. apply sumz_pos_nil; [exact Hp|lia].
+  - inversion R as [|? ? y ? R1 R2]; subst.
+    destruct (round_decreases _ _ Hp R1) as (Hp' & Hnil & Hdec).
+    apply (IH y x' Hp' R2).
+    destruct (body x) as [|b rest] eqn:Hb.
+    + rewrite (Hnil eq_refl). cbn. lia.
+    + assert (sumz (body y) < sumz (b :: rest)) by (apply Hdec; discriminate). lia.
 Qed.
